@@ -53,6 +53,21 @@ def main():
     ok = "test result" in out and all(" 0 failed" in l for l in out.splitlines() if "test result" in l) and "error" not in out
     meta["existing_tests_pass_with_patch"] = ok
     meta["ran"].append("cargo test --workspace --no-fail-fast --offline   (patched scratch copy, guard off): " + ("pass" if ok else "FAIL: " + out[-300:]))
+    if demo.endswith(".sh"):
+        # shell demonstration driving the fst binary (FST_BIN)
+        def run_sh():
+            rcb, outb = sh("cargo build --offline -p fst-bin 2>&1 | tail -3", cwd=f"{d}/repo", env=env)
+            return sh(f"FST_BIN={d}/target-tests/debug/fst timeout -k 5 600 bash {demo} 2>&1 | tail -8", cwd=f"{d}")
+        rc1, out1 = run_sh()
+        sh(f"patch -p1 -R --no-backup-if-mismatch < {patch}", cwd=f"{d}/repo")
+        rc2, out2 = run_sh()
+        fails_with = rc1 != 0 or "FAIL" in out1
+        passes_without = rc2 == 0 and "FAIL" not in out2
+        meta["demo_fails_with_patch"] = fails_with
+        meta["demo_passes_without_patch"] = passes_without
+        meta["ran"].append(f"FST_BIN=<scratch build> bash demo.sh: with patch -> {'fails' if fails_with else 'DOES NOT FAIL'}; without -> {'passes' if passes_without else 'DOES NOT PASS: ' + out2[-300:]}")
+        sh(f"patch -p1 --no-backup-if-mismatch < {patch}", cwd=f"{d}/repo")
+        return finish(meta, d, patch, demo, checks, fails_with, passes_without)
     # demo with the patch
     os.makedirs(f"{d}/repo/tests", exist_ok=True)
     os.makedirs(f"{d}/repo/target", exist_ok=True)  # some demos keep scratch files under the worktree's target/
@@ -69,6 +84,10 @@ def main():
     # checks against the patched copy
     os.remove(f"{d}/repo/tests/{demo_name}.rs")
     sh(f"patch -p1 --no-backup-if-mismatch < {patch}", cwd=f"{d}/repo")
+    return finish(meta, d, patch, demo, checks, fails_with, passes_without)
+
+def finish(meta, d, patch, demo, checks, fails_with, passes_without):
+    name = meta["name"]
     meta["checks"] = {}
     for c in checks:
         t0 = time.time()
@@ -87,7 +106,7 @@ def main():
     out_dir = f"/verif/seeded/{name}"
     os.makedirs(out_dir, exist_ok=True)
     shutil.copy(patch, f"{out_dir}/patch.diff")
-    shutil.copy(demo, f"{out_dir}/demo.rs")
+    shutil.copy(demo, f"{out_dir}/demo" + os.path.splitext(demo)[1])
     json.dump(meta, open(f"{out_dir}/meta.json", "w"), indent=1)
     print(json.dumps({k: meta[k] for k in ["name", "status", "existing_tests_pass_with_patch", "demo_fails_with_patch", "demo_passes_without_patch", "checks"]}, indent=1))
     shutil.rmtree(d, ignore_errors=True)
